@@ -8,6 +8,7 @@
   `blocks` are the sample blocks handed to `Encoder::encode`, in order.
 -/
 import FlacModel.Model.Basic
+import FlacModel.Gen.ShapesEnc
 
 namespace Flac
 
